@@ -17,6 +17,13 @@ saved = list(sys.path)
 sys.path.insert(0, repo)
 import logging
 logging.disable(logging.CRITICAL)
+# the import order of the miasmX modules is one more thing that may differ between two processes
+_order = ['miasmx.arch.ia32_arch', 'miasmx.arch.ia32_sem', 'miasmx.tools.emul_helper', 'miasmx.expression.expression',
+          'miasmx.expression.expression_helper', 'miasmx.expression.expression_eval_abstract', 'miasmx.tools.modint',
+          'miasmx.core.parse_ad', 'miasmx.arch.ia32_att', 'miasmx.core.bin_stream']
+random.Random(noise_seed ^ 0x5eed).shuffle(_order)
+for _m in _order:
+    __import__(_m)
 import miasmx.arch.ia32_arch as A
 import miasmx.arch.ia32_sem as S
 import miasmx.tools.emul_helper as H
